@@ -79,7 +79,8 @@ SrvCasesSmall == {[side |-> "server", lines |-> p \o <<L("a", "STARTTLS")>> \o s
 \*   EXISTS `* <100+i> EXISTS`   EXPUNGE `* <100+i> EXPUNGE`   (i = index of the line)
 \*   TAGGED `X9 OK done` (unknown tag)   BYE `* BYE bye`   PREAUTH `* PREAUTH hi`
 Greetings == {"GOK", "GOKC", "GPREAUTH", "GBYE"}
-CliPre == {<<>>, <<L("*", "EXISTS")>>}
+\* (capabilities announced in plaintext between the client's STARTTLS and its OK are plaintext knowledge as well)
+CliPre == {<<>>, <<L("*", "EXISTS")>>, <<L("*", "CAPS")>>, <<L("*", "OKCAPS")>>}
 CliSuffix == {<<>>, <<L("*", "OKCAPS")>>, <<L("*", "CAPS")>>, <<L("*", "EXISTS")>>, <<L("*", "EXPUNGE")>>,
               <<L("X", "TAGGED")>>, <<L("*", "BYE")>>, <<L("*", "PREAUTH")>>,
               <<L("*", "CAPS"), L("*", "EXISTS")>>}
@@ -89,6 +90,8 @@ CliCasesSmall == {[side |-> "client", lines |-> <<L("*", g)>> \o p \o <<L("T", "
                 g \in Greetings, p \in {<<>>}, s \in CliSuffix}
              \cup {[side |-> "client", lines |-> <<L("*", "GOKC"), L("*", "EXISTS"), L("T", "TOK")>> \o s] :
                 s \in {<<>>, <<L("*", "EXISTS")>>}}
+             \cup {[side |-> "client", lines |-> <<L("*", g), L("*", c), L("T", "TOK")>> \o s] :
+                g \in {"GOK", "GOKC"}, c \in {"CAPS", "OKCAPS"}, s \in {<<>>, <<L("*", "EXISTS")>>}}
 
 AllCases == SrvCases \cup CliCases
 SmallCases == SrvCasesSmall \cup CliCasesSmall
